@@ -13,6 +13,25 @@ alias MsgClawback github.com/haqq-network/haqq/x/vesting/types.MsgClawback
 func (Keeper).GetClawbackVestingAccount
     ensures found: result.1 == nil ==> result.0 != nil && result.0 < $alloc && ValidCVA(*result.0) && result.0.BaseVestingAccount < $alloc
             && result.0.BaseAccount != nil
+    ensures view: result.1 == nil ==> acct_iscva[addr] && acct_cva[addr] == *result.0 && acct_bva[addr] == *result.0.BaseVestingAccount
+            && cva_addr(*result.0) == addr
+    ensures missing: result.1 != nil ==> !acct_iscva[addr]
+    allow frame
+
+// C08: a vesting account is turned into a plain account only when NOTHING of its grant is still locked up by the lockup
+// schedule at block time (delegated or not) and nothing is unvested; a refused conversion changes nothing
+func (Keeper).ConvertVestingAccount
+    let a = addr_of_bech32(msg.VestingAddress)
+    let now = time_unix(ctx_blocktime(ctx_unwrap(goCtx)))
+    let O = old(acct_bva[addr_of_bech32(msg.VestingAddress)].OriginalVesting)
+    let st = time_unix(old(acct_cva[addr_of_bech32(msg.VestingAddress)].StartTime))
+    requires msg: msg != nil
+    modifies acct_iscva, acct_cva, acct_bva
+    ensures was_vesting: result.1 == nil ==> old(acct_iscva[a])
+    ensures nothing_locked: result.1 == nil ==> ciszero(csub(O, Read(st, old(acct_cva[a].LockupPeriods), now)))
+    ensures nothing_unvested: result.1 == nil ==> ciszero(csub(O, Read(st, old(acct_cva[a].VestingPeriods), now)))
+    ensures converted: result.1 == nil ==> acct_iscva == upd(old(acct_iscva), a, false)
+    ensures refused: result.1 != nil ==> acct_iscva == old(acct_iscva) && acct_cva == old(acct_cva) && acct_bva == old(acct_bva)
     allow frame
 
 // C09: the clawback transfers exactly the unvested amount to the destination, after the updated account
@@ -55,6 +74,12 @@ func (Keeper).addGrant
     ensures valid: result == nil && Sum(grantLockupPeriods, len(grantLockupPeriods)) == grantCoins
             && Sum(grantVestingPeriods, len(grantVestingPeriods)) == grantCoins ==> ValidCVA(*va)
     ensures funder: va.FunderAddress == old(va.FunderAddress) && va.BaseVestingAccount == old(va.BaseVestingAccount)
+    ensures base: va.BaseAccount == old(va.BaseAccount) && cva_addr(*va) == old(cva_addr(*va))
+    // the delegation tracking is re-read from the account's OWN bonded + unbonding stake
+    ensures delegated: result == nil ==> ciszero(va.DelegatedVesting) && va.DelegatedFree
+            == cone(sk_bonddenom(k.stakingKeeper, ctx), sk_bonded(k.stakingKeeper, ctx, old(cva_addr(*va))) + sk_unbonding(k.stakingKeeper, ctx, old(cva_addr(*va))))
+    call GetDelegatorBonded requires own_bonded: delegator == old(cva_addr(*va))
+    call GetDelegatorUnbonding requires own_unbonding: delegator == old(cva_addr(*va))
     ensures failed: result != nil ==> *va == old(*va) && *va.BaseVestingAccount == old(*va.BaseVestingAccount)
     // both merged schedules start at min(account start, grant start): the "start times differ" error is dead code
     unreachable return: return errorsmod.Wrapf(
@@ -79,6 +104,35 @@ func (Keeper).ApplyVestingSchedule
             && Ended(time_unix(acc.StartTime), acc.VestingPeriods, len(acc.VestingPeriods), u)
                == cadd(old(Ended(time_unix(acc.StartTime), acc.VestingPeriods, len(acc.VestingPeriods), u)), Ended(s, vestingPeriods, len(vestingPeriods), u))
     ensures merged_total: result.3 == nil && result.2 ==> acc.OriginalVesting == cadd(old(acc.OriginalVesting), coins) && ValidCVA(*acc)
+    // ---- C08/C11 (agent P): every field of an account that is created or converted is pinned ...
+    let SK = k.stakingKeeper
+    ensures new_fields: result.3 == nil && !result.2 ==> acc.FunderAddress == addr_string(funder) && acc.StartTime == startTime
+            && acc.EndTime == imax(T(s, lockupPeriods, len(lockupPeriods)), T(s, vestingPeriods, len(vestingPeriods)))
+            && len(acc.LockupPeriods) == len(lockupPeriods) && len(acc.VestingPeriods) == len(vestingPeriods)
+            && (forall j int :: 0 <= j && j < len(lockupPeriods) ==> acc.LockupPeriods[j] == lockupPeriods[j])
+            && (forall j int :: 0 <= j && j < len(vestingPeriods) ==> acc.VestingPeriods[j] == vestingPeriods[j])
+            && cva_addr(*acc) == funded && ciszero(acc.DelegatedVesting)
+    ensures created_delegated: result.3 == nil && result.1 ==> ciszero(acc.DelegatedFree) && !result.2
+    // ... the delegation tracking of a converted account is the FUNDED account's own bonded + unbonding stake
+    ensures converted_delegated: result.3 == nil && !result.1 && !result.2 ==>
+            acc.DelegatedFree == cone(sk_bonddenom(SK, ctx), sk_bonded(SK, ctx, funded) + sk_unbonding(SK, ctx, funded))
+    call GetDelegatorBonded requires own_bonded: delegator == funded
+    call GetDelegatorUnbonding requires own_unbonding: delegator == funded
+    ensures merged_fields: result.3 == nil && result.2 ==> acc.FunderAddress == addr_string(funder) && acc.FunderAddress == old(acc.FunderAddress)
+            && cva_addr(*acc) == funded && ciszero(acc.DelegatedVesting)
+            && acc.DelegatedFree == cone(sk_bonddenom(SK, ctx), sk_bonded(SK, ctx, funded) + sk_unbonding(SK, ctx, funded))
+    ensures flags: !(result.1 && result.2) && (result.3 != nil ==> result.0 == nil && !result.1)
+    // ---- ... and the account IS stored: afterwards the account store holds, under `funded`, exactly the returned account
+    // (every field, including the delegation tracking), whose schedules are the old ones plus the grant
+    modifies acct_iscva, acct_cva, acct_bva
+    ensures stored: result.3 == nil ==> acct_iscva == upd(old(acct_iscva), funded, true) && acct_cva == upd(old(acct_cva), funded, *acc)
+            && acct_bva == upd(old(acct_bva), funded, *acc.BaseVestingAccount)
+    ensures stored_lock: result.3 == nil ==> StoredLock(acct_iscva, acct_cva, funded, u)
+            == cadd(old(StoredLock(acct_iscva, acct_cva, funded, u)), Ended(s, lockupPeriods, len(lockupPeriods), u))
+    ensures stored_vest: result.3 == nil ==> StoredVest(acct_iscva, acct_cva, funded, u)
+            == cadd(old(StoredVest(acct_iscva, acct_cva, funded, u)), Ended(s, vestingPeriods, len(vestingPeriods), u))
+    ensures stored_total: result.3 == nil ==> acct_bva[funded].OriginalVesting == cadd(ite(old(acct_iscva[funded]), old(acct_bva[funded].OriginalVesting), coins_zero()), coins)
+    ensures failed: result.3 != nil ==> acct_cva == old(acct_cva) && acct_bva == old(acct_bva) && acct_iscva == old(acct_iscva)
     // the switch's default branch is dead code: the four cases are exhaustive
     unreachable return: return nil, false, true, errorsmod.Wrapf(types.ErrApplyShedule, "failed to initiate vesting for account %s", funded)
     allow frame
